@@ -91,6 +91,9 @@ func cmdVerify(args []string) {
 		if spec == nil && *onlySpec {
 			continue
 		}
+		if spec != nil && spec.Inline {
+			continue
+		}
 		if spec != nil && spec.Trusted {
 			fmt.Printf("%-60s TRUSTED (contract assumed)\n", k)
 			continue
